@@ -626,8 +626,12 @@ def check_property(case, obs):
     if complete and obs["final"] != (True, want):
         return ("C16:stored-outcome-wrong", "after the run done()/result() give %r, expected %r" % (obs["final"], (True, want)))
     # ---- done / result observations ordered against completion
+    # observations that prove the future done: done() == True, or a result() whose wait succeeded
+    # (a result(timeout) whose wait expired may still find the task's exception already stored,
+    # between the end of the body and the setting of the event: that window proves nothing)
     proven_done = [st for j, (st, o) in obs_end.items()
-                   if (case["obs"][j] == "done" and o == ("ok", True)) or (case["obs"][j] != "done" and o == want)]
+                   if (case["obs"][j] == "done" and o == ("ok", True))
+                   or (case["obs"][j] != "done" and o == want and "O%d" % j not in fired)]
     for j, (step, o) in sorted(obs_end.items()):
         kind = case["obs"][j]
         start = first.get("O%d" % j, INF)
@@ -664,39 +668,42 @@ def programs(tier):
     """[(program, prune, budget)] explored exhaustively"""
     jobs = []
     P = lambda b, r, o: {"body": b, "regs": list(r), "obs": list(o)}     # noqa
+    pairs = [("ret", "ret"), ("ret", "raise"), ("arity", "ret"), ("raise", "arity")]
     # executor + one registrar: every schedule (full path enumeration)
     for b in BODIES:
         for k in KINDS:
             jobs.append((P(b, [k], []), False, 5000))
-    # observers against the executor alone and with one registrar
+    # one observer against the executor alone: every schedule
     for b in BODIES:
-        for o in (["done"], ["result_t"], ["result"], ["done", "result_t"]):
-            jobs.append((P(b, [], o), False, 5000))
         for o in (["done"], ["result_t"], ["result"]):
-            jobs.append((P(b, ["ret"], o), True, 5000))
+            jobs.append((P(b, [], o), False, 5000))
+    # executor + registrar + observer: state-graph coverage
+    jobs.append((P("ret", ["ret"], ["done"]), True, 5000))
+    jobs.append((P("raise", ["raise"], ["done"]), True, 5000))
+    jobs.append((P("raise", ["ret"], ["result_t"]), True, 8000))
     # two registrars (re-registration before / across / after completion): state-graph coverage
-    pairs = [("ret", "ret"), ("ret", "raise"), ("arity", "ret"), ("raise", "arity")]
     for b in ("ret", "raise"):
         for pr in pairs:
             jobs.append((P(b, pr, []), True, 5000))
-    jobs.append((P("ret", ["ret", "raise"], ["result_t"]), True, 6000))
     if tier == "thorough":
         for b in BODIES:
-            for pr in itertools.product(KINDS, KINDS):
-                if b in ("ret", "raise") and pr in pairs:
-                    continue
-                jobs.append((P(b, pr, []), True, 8000))
-            for k in ("raise", "arity"):
+            jobs.append((P(b, [], ["done", "result_t"]), False, 20000))
+            for k in KINDS:
                 for o in (["done"], ["result_t"], ["result"]):
-                    jobs.append((P(b, [k], o), True, 8000))
+                    if (b, k, o[0]) not in (("ret", "ret", "done"), ("raise", "raise", "done"), ("raise", "ret", "result_t")):
+                        jobs.append((P(b, [k], o), True, 20000))
+            for pr in itertools.product(KINDS, KINDS):
+                if not (b in ("ret", "raise") and pr in pairs):
+                    jobs.append((P(b, pr, []), True, 20000))
         # two registrars: every schedule
         for b, pr in (("ret", ("ret", "ret")), ("raise", ("ret", "raise")), ("retnone", ("arity", "ret"))):
-            jobs.append((P(b, pr, []), False, 60000))
+            jobs.append((P(b, pr, []), False, 100000))
+        # two registrars and an observer; three registrars
         for b, pr, o in (("raise", ("ret", "ret"), ["result_t"]), ("ret", ("ret", "arity"), ["done"]),
-                         ("retnone", ("raise", "ret"), ["result"]), ("ret", ("ret", "ret"), ["done", "result_t"])):
-            jobs.append((P(b, pr, o), True, 30000))
+                         ("retnone", ("raise", "ret"), ["result"])):
+            jobs.append((P(b, pr, o), True, 100000))
         for b in ("ret", "raise"):
-            jobs.append((P(b, ("ret", "raise", "arity"), []), True, 30000))
+            jobs.append((P(b, ("ret", "raise", "arity"), []), True, 100000))
     return jobs
 
 
@@ -731,7 +738,7 @@ class Main(pipeline.Stream):
                                    "pruned" if job[1] else "all-schedules")
             self.stats[key] = st
             if not st.get("exhausted"):
-                self.truncated = getattr(self, "truncated", []) + [key]
+                raise RuntimeError("exploration budget too small for %s: %r" % (key, st))
             cases.extend(cs)
         n_rand = 400 if tier == "quick" else 20000
         rjobs = [(random_programs(), n_rand // 16, rng.randrange(1 << 30)) for _ in range(16)]
